@@ -38,7 +38,11 @@ RULE = ("seeded class-based raw matrices: 1-40 taxa (10%: up to 200), 1-4 traits
         "(counted only) or single-finite-entry columns; int64 input dtype; the three concrete breeding-value classes.  "
         "Operation histories of 1-10 steps over select/delete/insert/adjoin/concat (new object) and append/incorp/remove/"
         "reorder/sort/group (in place), specific and axis-generic forms, donors standardised separately, donors given as "
-        "matrices or as raw arrays, self-donation, repeated taxa; the taxa universe of a history has 80 rows, so that the "
+        "matrices or as raw arrays, self-donation, repeated taxa; 30% of the histories mix source array types (float64, float32, "
+        "int64 rows; initial matrix and donors mostly of a single type, handed over in that type); 40% of the histories keep up to "
+        "two earlier shallow (copy.copy / .copy()) or deep copies of the live matrix, continue on either the copy or the "
+        "original, and re-judge every kept object (round trip and summaries against its own raw values) after every later "
+        "step; the taxa universe of a history has 80 rows, so that the "
         "subsets met along a history differ in location, scale, constancy and NaN pattern.  A history stops at the first "
         "operation whose result no longer reproduces the raw values (later states descend from a corrupted object).  "
         "Non-trivial: more than one taxon or trait; distinct = digest of the raw inputs (and of the initial taxa and "
@@ -59,6 +63,11 @@ ASSUME = [
     "finding keys: input class = class of the raw column for objects returned by a constructor / non-mutating operation, "
     "'taxa set changed in place' for objects modified by append/incorp/remove; a badly standardised result of an operation "
     "that called from_numpy (recorded by a wrapper installed from the harness) is attributed to from_numpy",
+    "from_numpy documents a float64 matrix but accepts float32 / int64 arrays silently (as do adjoin/insert for raw values): "
+    "such input is asserted, not merely counted, with every taxon judged at the precision of ITS OWN source array - a float64 "
+    "or int64 taxon must come back to float64 rounding error whatever it is combined with, a float32 taxon to float32 rounding "
+    "error; summaries of a matrix holding float32 taxa are judged with tolerances widened by eps32/eps64; a loss that becomes "
+    "visible only at a later step is attributed to the operation that first left float64/int64 taxa in a float32 matrix",
     "tolerances: pbmon/oracle/bvscale.py (round trip 4*eps*(k+1)*(|raw|+2M) after k operations, summaries 1e-12*(k+1)*M, "
     "M = largest finite magnitude of the trait)",
 ]
@@ -514,7 +523,7 @@ def _case_ops(ctx, c):
                                                                 "first_bad": fk, "location": e["obj"].location, "scale": e["obj"].scale},
                             coords=coords)
             if not okk:
-                kept.remove(e)
+                kept[:] = [x for x in kept if x is not e]   # by identity (the matrices overload ==)
                 continue
             sk, _ = col_stats(Rk)
             check_stats(ctx, e["obj"], Rk, sk, mags, k_, coords, e["tag"], prec_of(e["ids"]))
@@ -829,7 +838,7 @@ def case_generic(ctx, c):
               witness={"raw": Rf, "stored": flat(sm.mat), "location": sm.location, "scale": sm.scale, "first_bad": first}, coords=coords)
 
 
-FAMILIES = {"build": (case_build, 12000, 320000), "ops": (case_ops, 7200, 192000), "generic": (case_generic, 3600, 64000)}
+FAMILIES = {"build": (case_build, 12000, 320000), "ops": (case_ops, 7200, 160000), "generic": (case_generic, 3600, 64000)}
 
 
 def run_shard(ctx):
